@@ -173,6 +173,12 @@ def check_c12(out, tier):
         pairs = [(a, b) for a in range(len(grid)) for b in range(a, len(grid))]
         for (a, b) in rnd.sample(pairs, 3 if tier == "quick" else 8):
             items.append({"id": "%s.%d.%d" % (c["id"], a, b), "rel": "thr", "a": with_cfg(c, thr=grid[a]), "b": with_cfg(c, thr=grid[b])})
+    # shapes that empty at different thresholds while another shape refers to them through consecutive constraints
+    for i in range(30 * k):
+        c = gen.fan_case(rnd, "c12f%d" % i)
+        pairs = [(a, b) for a in range(len(grid)) for b in range(a, len(grid))]
+        for (a, b) in rnd.sample(pairs, 3 if tier == "quick" else 8):
+            items.append({"id": "%s.%d.%d" % (c["id"], a, b), "rel": "thr", "a": with_cfg(c, thr=grid[a]), "b": with_cfg(c, thr=grid[b])})
     campaign(out, "C12", items, mine)
     pinned_campaigns(out, "C12", mine)
     # the two end points are absolute statements: threshold 0 omits nothing observed, threshold 1 keeps only universal features
